@@ -77,6 +77,15 @@ func init() {
 		Assume: []string{"the screen is at least 1x1 when mouse reports are decoded (clip precondition)", "wheel left/right codes (bits 6 and 1 both set) are outside the property"},
 	})
 	reg(&PropDef{
+		ID:     "C17",
+		Level:  "proof",
+		Funcs:  []string{"tcell.(*tScreen).encodeRune", "tcell.(*tScreen).CanDisplay"},
+		Custom: []func(*PropRun){c17AcsMaps},
+		Trusted: []string{"transform.Transformer.Transform writes only into dst and returns counts within bounds (assumed interface contract); which bytes a given charset encoder produces is not modelled",
+			"the encoder is deterministic, so encodeRune and CanDisplay see the same answer for the same rune (agreement of the two contracts rests on this)"},
+		Assume: []string{"a non-UTF-8 locale (t.encoder != nil)"},
+	})
+	reg(&PropDef{
 		ID:    "C20",
 		Level: "proof",
 		Funcs: []string{"views.(*ViewPort).ValidateViewX", "views.(*ViewPort).ValidateViewY", "views.(*ViewPort).ValidateView",
